@@ -199,6 +199,11 @@ func c15DrawRole(rt *rapid.T, m *c15Mount) *c15Role {
 			r.AllowedDomains = append(r.AllowedDomains, rapid.SampledFrom(c15BaseDomains).Draw(rt, "domain"))
 		}
 	}
+	// an empty entry is what the API stores for a trailing comma ("example.com,"); it authorises nothing
+	if nd > 0 && vxChance(rt, "emptyDomainEntry", 15) {
+		at := rapid.IntRange(0, len(r.AllowedDomains)).Draw(rt, "emptyEntryAt")
+		r.AllowedDomains = append(r.AllowedDomains[:at:at], append([]string{""}, r.AllowedDomains[at:]...)...)
+	}
 	r.AllowBare = vxChance(rt, "allow_bare_domains", 60)
 	r.AllowSub = vxChance(rt, "allow_subdomains", 60)
 	r.AllowGlob = vxChance(rt, "allow_glob_domains", 55)
@@ -304,6 +309,9 @@ var c15HostileKinds = []string{"lookalike", "lookalike", "suffixext", "badwild",
 func c15LegitKinds(r *c15Role) (kinds []string) {
 	plain, glob := false, false
 	for _, d := range r.AllowedDomains {
+		if d == "" {
+			continue
+		}
 		if strings.Contains(d, "*") {
 			glob = true
 		} else {
@@ -342,7 +350,7 @@ func c15DrawName(rt *rapid.T, r *c15Role, kinds []string) c15Name {
 	var pool []string
 	wantGlob := kind == "globinst" || kind == "literal"
 	for _, d := range r.AllowedDomains {
-		if strings.Contains(d, "*") == wantGlob || len(kinds) == len(c15AllKinds) {
+		if d != "" && (strings.Contains(d, "*") == wantGlob || len(kinds) == len(c15AllKinds)) {
 			pool = append(pool, d)
 		}
 	}
@@ -437,7 +445,7 @@ func c15DrawName(rt *rapid.T, r *c15Role, kinds []string) c15Name {
 		s := rapid.SampledFrom([]string{"localhost", "localdomain", "foo.localhost", "*.localhost", "u@localhost", "localhost.evil.net", "notlocalhost", "foo.localdomain"}).Draw(rt, "lh")
 		return c15Name{s, "localhost-form", s != "localhost.evil.net" && s != "notlocalhost"}
 	case "foreign":
-		return c15Name{rapid.SampledFrom([]string{"evil.net", "www.evil.net", "com", "evil.net.", "*.evil.net"}).Draw(rt, "foreign"), "foreign", false}
+		return c15Name{rapid.SampledFrom([]string{"evil.net", "www.evil.net", "com", "evil.net.", "*.evil.net", "login.evil.net.", "*", "www*", "u@evil.net.", "*."}).Draw(rt, "foreign"), "foreign", false}
 	default: // nonhost
 		bad := rapid.SampledFrom([]string{"under_score", "sp ace", "-dash", "dash-", "a..b", strings.Repeat("l", 64), "semi;colon", "quo\"te", "sl/ash"}).Draw(rt, "badLabel")
 		return c15Name{bad + "." + d, "not-a-hostname", true}
